@@ -6,7 +6,7 @@
 namespace sim {
 namespace {
 
-struct Variant { long outstep, saveps, fptrack; bool tracking, verbose; std::string output; int scribble = 0; };
+struct Variant { long outstep, saveps, fptrack; bool tracking, verbose; std::string output; int scribble = 0; long sigint = -1; };
 
 struct C12 : Scenario {
     const char* id() const override { return "C12"; }
@@ -69,6 +69,9 @@ struct C12 : Scenario {
             // buggify (legal FFTW behaviour, not an observer in the property's list but an "equal inputs" case): the c2r
             // transform destroys its input in this member's process; results must not depend on it
             p.seti(pre + "scribble", (i > 0 && r.chance(0.25)) ? r.range(1, 2) : 0);
+            // the last member of a quarter of the groups is ended by SIGINT at a seeded moment: being stopped is one more way of
+            // observing; all its records, the final one included, are records other members hold for the same step
+            p.seti(pre + "sigint", (i == k - 1 && i > 0 && r.chance(0.25)) ? r.range(0, 1000000) : -1);
         }
         p.setu("entropy", r.u64());
         // real planner (FFTW_PATIENT + wisdom files) only for short transforms: planning is timed and slow
@@ -87,6 +90,7 @@ struct C12 : Scenario {
         make_dir(rc.workdir + "/sub/dir");
         std::vector<H5Snap> snaps;
         std::vector<Variant> vars;
+        long hooks0 = 0, interrupted_steps = -1;
         auto launch_variant = [&](const Variant& v, const std::string& tag, const std::string& subdir, H5Snap& out) -> bool {
             Cfg c = base;
             c.outstep = v.outstep; c.saveps = v.saveps; c.fptrack = v.fptrack; c.verbose = v.verbose;
@@ -94,11 +98,14 @@ struct C12 : Scenario {
             c.output = subdir + v.output;
             Launch l = make_launch(c, rc.workdir, tag, entropy, planner);
             l.rt.c2r_scribble = v.scribble;
+            if (v.sigint >= 0 && hooks0 > 0) l.rt.sigint_points = {v.sigint % hooks0};
             LaunchResult r = run_launch(l);
+            if (tag == "m0") hooks0 = r.sumi("point_hits");
+            if (!r.raised.empty()) { interrupted_steps = r.sumi("steps_done"); o.fault("sigint_point"); o.probe("reach.member_ended_by_sigint"); }
             o.launches++;
             if (r.sumi("scribbles") > 0) o.fault("fftw_c2r_input_destroyed", r.sumi("scribbles"));
             o.simsteps += r.sumi("steps_done");
-            if (!r.exited || r.code != 0 || (unsigned)r.sumi("steps_done") != d.laststep) {
+            if (!r.exited || r.code != 0 || ((unsigned)r.sumi("steps_done") != d.laststep && r.raised.empty())) {
                 o.set_infra("launch " + tag + " failed: " + r.describe() + " steps=" + std::to_string(r.sumi("steps_done")) + " " + tail(r.err));
                 return false;
             }
@@ -128,7 +135,7 @@ struct C12 : Scenario {
         for (long i = 0; i < k; i++) {
             std::string pre = "v" + std::to_string(i) + ".";
             Variant v{plan.geti(pre + "outstep"), plan.geti(pre + "saveps"), plan.geti(pre + "fptrack"),
-                      plan.geti(pre + "tracking") != 0, plan.geti(pre + "verbose") != 0, plan.get(pre + "output", "out.h5"), (int)plan.geti(pre + "scribble", 0)};
+                      plan.geti(pre + "tracking") != 0, plan.geti(pre + "verbose") != 0, plan.get(pre + "output", "out.h5"), (int)plan.geti(pre + "scribble", 0), plan.geti(pre + "sigint", -1)};
             H5Snap s;
             make_dir(rc.workdir + "/m" + std::to_string(i) + "/sub/dir");
             if (!launch_variant(v, "m" + std::to_string(i), "m" + std::to_string(i) + "/", s)) return o;
@@ -149,6 +156,7 @@ struct C12 : Scenario {
         // final phase space identical across the group
         for (long i = 1; i < k; i++) {
             o.checks++;
+            if (vars[(size_t)i].sigint >= 0 && interrupted_steps >= 0 && (unsigned)interrupted_steps != d.laststep) continue;   // (stopped earlier: its records are compared step by step below)
             size_t ra = snaps[0].rows(PS_DATA), rb = snaps[i].rows(PS_DATA);
             if (ra == 0 || rb == 0) { o.fail("C12.final_ps", "member without a final phase-space record"); continue; }
             std::string e = cmp_row(snaps[0], ra - 1, snaps[i], rb - 1, PS_DATA);
@@ -216,7 +224,7 @@ struct C12 : Scenario {
         for (long i = k - 1; i >= 1 && k > 2; i--) {
             Plan q = p;
             std::string last = "v" + std::to_string(k - 1) + ".", cur = "v" + std::to_string(i) + ".";
-            for (auto key : {"outstep", "saveps", "tracking", "fptrack", "verbose", "output", "scribble"}) {
+            for (auto key : {"outstep", "saveps", "tracking", "fptrack", "verbose", "output", "scribble", "sigint"}) {
                 q.set(cur + key, p.get(last + key));
                 q.erase(last + key);
             }
@@ -239,6 +247,7 @@ struct C12 : Scenario {
             if (p.geti(pre + "tracking")) { Plan q = p; q.seti(pre + "tracking", 0); out.push_back(q); }
             if (p.geti(pre + "verbose")) { Plan q = p; q.seti(pre + "verbose", 0); out.push_back(q); }
             if (p.geti(pre + "scribble", 0)) { Plan q = p; q.seti(pre + "scribble", 0); out.push_back(q); }
+            if (p.geti(pre + "sigint", -1) >= 0) { Plan q = p; q.seti(pre + "sigint", -1); out.push_back(q); }
             if (p.get(pre + "output") != "out.h5") { Plan q = p; q.set(pre + "output", "out.h5"); out.push_back(q); }
         }
         if (p.geti("planner")) { Plan q = p; q.seti("planner", 0); out.push_back(q); }
